@@ -34,13 +34,27 @@ tokenizer and the selector is REJECTED — true of /repo as well; `:not(` as a f
 `2n` `-1` without a blank; a leading `þÿ`); `a+.c` shows the one condition that is stronger than necessary
 (inherited from the one-character stop condition `C09.ctxStop` of the delimiter `+`).
 
-Partial: layout is the simple one (exactly one blank where the grammar has white space, no comments); names
+Layouts (third part of this file, lemmas in `Proofs/SelectorLayout.lean`): at every place where `Sel` has white
+space — the descendant combinator, the `before` / `after` blanks of an explicit combinator, `ArgTok.ws` among
+the arguments of a functional pseudo-class — `Sel.textWith sp σ` writes an arbitrary non-empty run of the
+characters of the S production of `Gen.tables` (space, tab, LF, FF, CR: `C09.gen_S_first`), taken from the
+list `sp` in text order (`Spacing`, decidable condition `sp.all wsRunOK`).  `specificity_from_text_layout`
+is `specificity_from_text` for every such layout; it rests on `s_value_ignored` (the state machine never
+looks at the value of an S token), `prepass_normS` (the pre-pass commutes with forgetting S values) and
+`lexemes_classify_layout`.
+
+Partial: white space only where `Sel` has it (the model drops S inside `[…]` and `:not(…)`, but `Sel` has no
+place for it) and NO comments: a COMMENT token is an item of its own for the state machine
+(`step_comment`), it blocks the merges of the pre-pass, it consumes a pending namespace prefix
+(`*|/**/a` is read as `a`, example below) and `a/**/b` is rejected, so comments need a token rendering of
+their own, see the note before `step_comment` in `Proofs/SelectorLayout.lean`; names
 are escape-free and, as in `Sel.WF`, pseudo names are in normal form (lower case) and the negation is spelled
 `:not(`; "unchanged by serialising and re-parsing" and the @page triple are decided by the oracle on the
 implementation (`harness/props/c16.py`).
 -/
 import CssVerif.Proofs.Selector
 import CssVerif.Proofs.SelectorText
+import CssVerif.Proofs.SelectorLayout
 import CssVerif.Gen.Productions
 namespace CssVerif.C16
 open CssVerif CssVerif.Selector
@@ -264,6 +278,138 @@ text `a+.c` is outside the hypotheses of `C09.classify_sequence` (`ctxStop` want
 delimiter `+`), yet the models return the expected specificity; `a+ .c` and `a + .c` are covered -/
 example : exDot.NamesOK = false ∧ verdict [] exDot = (true, "", exDot.spec) ∧
     ({ exDot with rest := [(.adjacent, ⟨false, true⟩, { head := none, parts := [.simple (.cls (str ".c"))], pelem := none })] } : Sel).NamesOK = true := by
+  decide +kernel
+
+/-! ## any layout: arbitrary non-empty white-space runs where the grammar has white space -/
+
+/-- the state machine of `_setSelectorText` never looks at the VALUE of an S token -/
+theorem s_value_ignored (T : Tables) (m : NsMap) (st : Selector.St) (v w : Text) :
+    Selector.step T m st (.s, v) = Selector.step T m st (.s, w) :=
+  step_s_value T m st v w
+
+/-- with the empty spacing every place keeps its single blank: `textWith` generalises `text` -/
+theorem textWith_nil (σ : Sel) : σ.textWith [] = σ.text := by
+  have : ∀ ls : List Lexeme, respace [] ls = ls := by
+    intro ls
+    induction ls with
+    | nil => rfl
+    | cons l ls ih => cases l <;> simp [respace, isWsLex, ih]
+  simp [Sel.textWith, Sel.lexWith, Sel.text, this]
+
+/-- the laid-out lexeme sequence meets the hypotheses of `C09.classify_sequence` -/
+theorem lexemes_classify_layout (σ : Sel) (hn : σ.NamesOK = true) (sp : Spacing) (hsp : sp.all wsRunOK = true) :
+    (∀ l ∈ σ.lexWith sp, l.wf = true) ∧ chain canFollow (σ.lexWith sp) = true ∧
+      ratioFree none (σ.lexWith sp) = true ∧ startsWithBom (σ.textWith sp) = false :=
+  lexWith_classify σ hn sp hsp
+
+/-- the tokens of the laid-out text, as the selector parser sees them -/
+theorem tokens_of_layout (σ : Sel) (hn : σ.NamesOK = true) (sp : Spacing) (hsp : sp.all wsRunOK = true) :
+    (tokenize Gen.tables ⟨false, true⟩ (σ.textWith sp)).toks.map (fun k => (TT.ofString k.typ, k.val)) =
+      (σ.lexWith sp).map tokOf := by
+  obtain ⟨hwf, hch, hr, hb⟩ := lexWith_classify σ hn sp hsp
+  have h := C09.classify_sequence (σ.lexWith sp) hwf hch hr hb
+  have := congrArg (List.map (fun p : String × Text => (TT.ofString p.1, p.2))) h
+  rw [List.map_map, List.map_map] at this
+  exact this
+
+/-- tokenizer model on the laid-out text, then the pre-pass: the token rendering `σ.toks` of the grammar,
+up to the values of the S tokens (`normS` gives every S token the value of one blank) -/
+theorem tokens_from_text_layout (σ : Sel) (hn : σ.NamesOK = true) (sp : Spacing) (hsp : sp.all wsRunOK = true) :
+    (prepass Gen.tables ((tokenize Gen.tables ⟨false, true⟩ (σ.textWith sp)).toks.map
+      (fun k => (TT.ofString k.typ, k.val)))).map normS = σ.toks.map normS := by
+  rw [tokens_of_layout σ hn sp hsp]
+  exact prepass_lexWith σ hn sp hsp
+
+/-- **C16 from the text, any layout.**  Let `σ` be a well-formed selector of the level-3 grammar whose names
+are lexically fine, and let `sp` choose a non-empty run of white-space characters (space, tab, LF, FF, CR)
+for the white-space places of `σ` (descendant combinators, the blanks around explicit combinators that the
+`Layout` flags ask for, the blanks among the arguments of functional pseudo-classes), in text order.  The
+tokenizer model run on the laid-out text followed by the whole of `Selector._setSelectorText` accepts it
+without an error and reports the specificity of the CSS definition. -/
+theorem specificity_from_text_layout (m : NsMap) (σ : Sel) (hw : σ.WF Gen.tables m) (hn : σ.NamesOK = true)
+    (sp : Spacing) (hsp : sp.all wsRunOK = true) :
+    (parse Gen.tables m ((tokenize Gen.tables ⟨false, true⟩ (σ.textWith sp)).toks.map
+      (fun k => (TT.ofString k.typ, k.val)))).wellformed = true ∧
+    (parse Gen.tables m ((tokenize Gen.tables ⟨false, true⟩ (σ.textWith sp)).toks.map
+      (fun k => (TT.ofString k.typ, k.val)))).firstErr = "" ∧
+    (parse Gen.tables m ((tokenize Gen.tables ⟨false, true⟩ (σ.textWith sp)).toks.map
+      (fun k => (TT.ofString k.typ, k.val)))).spec = σ.spec := by
+  unfold parse
+  rw [tokens_of_layout σ hn sp hsp, run_lexWith m σ hn sp hsp]
+  exact specificity m σ hw
+
+/-! ### non-vacuity: tabs, newlines, form feeds -/
+
+/-- `a b:nth-child(2n + 1)`: a descendant combinator and two blanks among the arguments -/
+def exLay : Sel :=
+  { first := tp (str "a"),
+    rest := [(.descendant, ⟨false, false⟩,
+              { head := some (.type .none (str "b")),
+                parts := [.simple (.pfunc (str ":nth-child(") (.dimension (str "2n"))
+                            [.ws, .plus, .ws, .number (str "1")])],
+                pelem := none })] }
+
+theorem exLay_wf : exLay.WF Gen.tables [] := by
+  refine ⟨tp_wf _ _, fun x hx => ?_⟩
+  simp only [exLay, List.mem_cons, List.not_mem_nil, or_false] at hx
+  subst hx
+  refine ⟨fun h hh => (by cases hh; trivial), ?_, fun e he => (by cases he), Or.inl rfl⟩
+  intro p hp
+  simp only [List.mem_cons, List.not_mem_nil, or_false] at hp
+  subst hp
+  exact ⟨by decide +kernel, by decide, by decide, by decide⟩
+
+theorem exLay_names : exLay.NamesOK = true := by decide +kernel
+
+/-- tab tab / LF / blank CR LF for the three white-space places -/
+def exSp : Spacing := [(9, [9]), (10, []), (32, [13, 10])]
+
+theorem exLay_text : exLay.textWith exSp = str "a\t\tb:nth-child(2n\n+ \r\n1)" := by decide +kernel
+
+/-- by the theorem … -/
+theorem exLay_from_text :
+    (parse Gen.tables [] ((tokenize Gen.tables ⟨false, true⟩ (str "a\t\tb:nth-child(2n\n+ \r\n1)")).toks.map
+      (fun k => (TT.ofString k.typ, k.val)))).spec = (0, 1, 2) := by
+  rw [← exLay_text]
+  exact (specificity_from_text_layout [] exLay exLay_wf exLay_names exSp (by decide)).2.2.trans (by decide)
+
+/-- … and by running the executable models (a test, labelled as one) -/
+example :
+    (parse Gen.tables [] ((tokenize Gen.tables ⟨false, true⟩ (str "a\t\tb:nth-child(2n\n+ \r\n1)")).toks.map
+      (fun k => (TT.ofString k.typ, k.val)))).spec = (0, 1, 2) := by decide +kernel
+
+/-- the example selector of this file with `TAB LF blank` before and `CR FF` after the `>` -/
+example :
+    exSel.textWith [(9, [10, 32]), (13, [12])] =
+      str "p|a#i.c[q|x~=\"v\"]:hover:nth-child(2n+1):not(.d)::after\t\n >\r\x0c*|b:not(|e):before" ∧
+    (parse Gen.tables exNs ((tokenize Gen.tables ⟨false, true⟩
+      (exSel.textWith [(9, [10, 32]), (13, [12])])).toks.map (fun k => (TT.ofString k.typ, k.val)))).spec = (1, 5, 5) :=
+  ⟨by decide +kernel,
+   (specificity_from_text_layout exNs exSel exSel_wf exSel_names _ (by decide)).2.2.trans exSel_spec⟩
+
+/-! ### the condition on the spacing is needed; comments are a different matter (kernel-checked) -/
+
+/-- `a b` -/
+def exDesc : Sel := { first := tp (str "a"), rest := [(.descendant, ⟨false, false⟩, tp (str "b"))] }
+
+/-- **the runs consist of white-space characters.**  With `x` for the blank the text is `axb`: one type
+selector, specificity (0, 0, 1) instead of (0, 0, 2) -/
+example : exDesc.NamesOK = true ∧ [((120, []) : Nat × Text)].all wsRunOK = false ∧ exDesc.spec = (0, 0, 2) ∧
+    exDesc.textWith [(120, [])] = str "axb" ∧
+    (parse Gen.tables [] ((tokenize Gen.tables ⟨false, true⟩ (exDesc.textWith [(120, [])])).toks.map
+      (fun k => (TT.ofString k.typ, k.val)))).spec = (0, 0, 1) := by
+  decide +kernel
+
+/-- what `_setSelectorText` (model) says about a text -/
+def verdictOf (m : NsMap) (t : String) : Bool × String × Spec :=
+  let r := parse Gen.tables m ((tokenize Gen.tables ⟨false, true⟩ (str t)).toks.map (fun k => (TT.ofString k.typ, k.val)))
+  (r.wellformed, r.firstErr, r.spec)
+
+/-- **comments are not white space**: next to white space a comment is harmless (`a /**/ b`), alone it is
+not a descendant combinator (`a/**/b` is rejected), and right after a namespace prefix it consumes the
+prefix (`*|/**/a` is accepted as the type selector `a`; /repo re-serialises it as `/**/a`) -/
+example : verdictOf [] "a /**/ b" = (true, "", (0, 0, 2)) ∧ verdictOf [] "a/**/b" = (false, "SyntaxErr", (0, 0, 1)) ∧
+    verdictOf [] "*|/**/a" = (true, "", (0, 0, 1)) := by
   decide +kernel
 
 end CssVerif.C16
